@@ -229,7 +229,11 @@ class RuleRun:
         # reset the only class-level mutable state (fresh-id counter)
         I.classes["BinaryTreeNode"].attrs["_idCounter"] = 0
         node = heap.new_input(ALL12, "node")
+        from . import values as _values
+
+        _values.EPOCH[0] = 0
         rule = I.instantiate(m.env.vars[cls].info, [], dict(opts))
+        _values.EPOCH[0] = 1  # everything created from here on is local to the calls under check
         t0 = time.time()
         try:
             self._run(I, ps, heap, node, rule, rep)
@@ -252,7 +256,6 @@ class RuleRun:
                 Obligation("C06", "can_apply_to/no-raise", Verdict("refuted"), f"raised {pr.exc.clsname} at {pr.site}")
             )
             return
-        writes = [w for w in ps.writes[w0:] if not w[0].fresh or w[0].oid < 0]
         impure = [w for w in ps.writes[w0:] if _preexisting(w[0], node, rule)]
         rep.obligations.append(
             Obligation(
@@ -484,6 +487,8 @@ def _orig(o):
 def _preexisting(o, node, rule):
     if isinstance(o, Obj):
         return o.lazy and o.mirror is None or o is rule
+    if hasattr(o, "epoch"):
+        return o.epoch < 1  # a container that outlives the call (hidden state of the rule)
     return True
 
 
